@@ -49,7 +49,9 @@ NEAR_RD = 2500        # reward denominator of the near-tie family: rewards diffe
 LARGE_RM = 900        # reward multiplier of the large-magnitude family: costs of -900, -1800, ... per step
 HUGE_RM = 10 ** 7     # huge-magnitude family: rewards of 1e7 .. 3e7 with transition probabilities in thirds / sevenths
 SMALL_RD, SMALL_BASE = 2 ** 18, 256     # small near-tie profile: rewards ~ +-0.001, +-0.002, gaps 2**-18, 2**-17
-RARE_EPS = [1e-3, 1e-4, 1e-5, 1e-5, 1e-6, 1e-7, 1e-9]   # real probability of the rare transition (1e-3: control)
+# real probability of the rare transition; 1e-3, 5e-4, 2e-4 are controls: the unchanged code copes with them (its rank
+# test fails below ~7e-5, the known finding RARE_SIGNATURE), a cruder rank test does not
+RARE_EPS = [1e-3, 5e-4, 5e-4, 2e-4, 2e-4, 1e-4, 1e-5, 1e-5, 1e-6, 1e-7, 1e-9]
 MIXED_SM = [10 ** 8, 10 ** 9]         # mixed-magnitude family: per-state multiplier of the "big" component
 SWEEPS = [(1, 2), (3, 4), (1, 1), (0, 1)]     # discounts a call-history case switches to (mdp.discount_rate changed in place)
 ISCLOSE_ATOL, ISCLOSE_RTOL = 1e-8, 1e-5     # np.isclose defaults = the tie window of msdm's improvement steps
@@ -207,8 +209,34 @@ def rare_case(rng):
         P[t][a][t] = PD
         R[t][a] = [0 if to_abs else rb] * N
     m = {"N": N, "K": K, "PD": PD, "GN": 1, "GD": 1, "ID": 2, "abs": [0] * nT + [1 if to_abs else 0], "avail": avail,
-         "P": P, "R": R, "p0": [0] * N, "CAP": BIG_CAP, "rare": [s0, a0, x, t], "eps": rng.choice(RARE_EPS)}
+         "P": P, "R": R, "p0": [0] * N, "CAP": BIG_CAP, "rare": [s0, a0, x, t],
+         # the controls 1e-3 / 5e-4 / 2e-4 only for a single nearly closed state: with two such states the unchanged
+         # code's rank test already misjudges at 1e-3 (same known defect: the Gram determinant is ~ eps^2 times a small
+         # factor; gains off by 1-4% at 1e-3), so those get the probabilities of the known-finding regime only
+         "eps": rng.choice(RARE_EPS if nT == 1 else [e for e in RARE_EPS if e <= 1e-4])}
     m["p0"][rng.randrange(nT)] = 2
+    return m
+
+
+def rarecost_case(rng):
+    """Rare-but-costly branch (discounted 1/2, 3/4): some action of a non-absorbing state leads to an absorbing state g
+    with probability 1 - 2**-30 (reward r1) and to another absorbing state t with probability 2**-30, paying -c * 2**40:
+    an expected loss of 1024 c that must not be ignored.  The model carries the row as one transition to g with the
+    expected one-step reward r1 - 1024 c (exact up to a relative 2**-30)."""
+    GN, GD = rng.choice([(1, 2), (3, 4)])
+    m = gen.rand_mdp(rng, n_na=rng.choice([1, 2, 2, 3]), n_abs=2, K=rng.choice([2, 3]), PD=2, GN=GN, GD=GD,
+                     rewards=(-2, -1, 0, 1, 2), ID=2, init_on_abs=0.0)
+    na = [x for x in range(m["N"]) if not m["abs"][x]]
+    g, t = rng.sample([x for x in range(m["N"]) if m["abs"][x]], 2)
+    s0 = rng.choice(na)
+    a0, other = rng.sample(range(m["K"]), 2)
+    m["avail"][s0][a0] = m["avail"][s0][other] = 1
+    c, r1 = rng.choice([1, 1, 2]), rng.choice([1, 2, 3, 5])
+    m["P"][s0][a0] = [m["PD"] if x == g else 0 for x in range(m["N"])]
+    m["R"][s0][a0] = [r1 - 1024 * c] * m["N"]
+    m["p0"] = [2 if x == s0 else 0 for x in range(m["N"])]
+    m["CAP"] = BIG_CAP
+    m["rarecost"] = {"s": s0, "a": a0, "g": g, "t": t, "c": c, "r1": r1}
     return m
 
 
@@ -327,6 +355,14 @@ def make_cases(rng, n, tier):
             rep["explicit_list"] = True                          # the rare row's state need not be reachable from the start
             cases.append({"m": m, "rep": rep, "n_inits": 1, "all_rules": False, "rare": True})
             continue
+        if len(cases) % 16 == 10:               # every 16th case: a 2**-30 branch with a 2**40 penalty (discounted)
+            m = rarecost_case(rng)
+            if not gen.magnitude_ok(m, QD=3):
+                continue
+            rep = dict(REPS[rng.choice([0, 1, 2, 4, 5])])      # not the from_matrices representation
+            rep["explicit_list"] = True
+            cases.append({"m": m, "rep": rep, "n_inits": 2, "all_rules": False, "rarecost": True})
+            continue
         if len(cases) % 16 == 13:               # every 16th case: mixed magnitudes (small near-tie component + 1e8..1e9 component)
             m, tie = mixed_case(rng)
             if not gen.magnitude_ok(m, QD=3):
@@ -367,8 +403,10 @@ def make_cases(rng, n, tier):
             m["RM"] = LARGE_RM
         m["CAP"] = BIG_CAP if (large or rng.random() < 0.7) else rng.randint(1, 4)
         rep = dict(REPS[rng.randrange(len(REPS))])
-        if not rep["explicit_list"] and not gen.ghost_closed(m):
-            rep["explicit_list"] = True      # ghost successors outside the inferred list: C06's business
+        if not rep["explicit_list"] and not gen.ghost_closed(m) and rng.random() < 0.5:
+            # ghost successors of an absorbing state outside the inferred list: msdm leaves them unexpanded (rows cut);
+            # kept on half of these cases, the other half gets the explicit list
+            rep["explicit_list"] = True
         all_rules = tier == "thorough" and len(cases) % 4 == 0
         case = {"m": m, "rep": rep, "n_inits": 2, "all_rules": all_rules}
         # call history: the same planner object plans the same MDP object again after mdp.discount_rate was
@@ -398,6 +436,28 @@ def make_cases(rng, n, tier):
             m["p0"].append(0)
             m["N"] = z + 1
             case["zinit"] = z
+        # input shape: a reachable explicitly absorbing state whose own action set is smaller than the action list and whose
+        # ghost rows all lead to a state outside the (inferred) state list - msdm leaves those successors unexpanded, so
+        # all its transition rows are empty.  Nothing may depend on that: its policy row stays within its own actions.
+        reach_abs = [x for x in gen.reach(m) if m["abs"][x]]
+        if ("zinit" not in case and "start_sweep" not in case and not rep["explicit_list"] and reach_abs and m["K"] >= 2
+                and rng.random() < 0.35):
+            zz, u = rng.choice(reach_abs), m["N"]
+            keep = rng.sample(range(m["K"]), rng.randint(1, m["K"] - 1))
+            for st in range(u):
+                for a in range(m["K"]):
+                    m["P"][st][a].append(0)
+                    m["R"][st][a].append(0)
+            m["P"].append([[0] * u + [m["PD"]] for _ in range(m["K"])])
+            m["R"].append([[0] * (u + 1) for _ in range(m["K"])])
+            m["avail"].append([1] * m["K"])
+            m["abs"].append(0)
+            m["p0"].append(0)
+            m["N"] = u + 1
+            m["avail"][zz] = [1 if a in keep else 0 for a in range(m["K"])]
+            for a in range(m["K"]):
+                m["P"][zz][a] = [0] * u + [m["PD"]]
+            case["cutghost"] = zz
         cases.append(case)
     return cases
 
@@ -435,6 +495,16 @@ def prepare(case, tamper_build=None):
         zlab = b.slabel[case["zinit"]]
         orig_isd = b.mdp.initial_state_dist
         b.mdp.initial_state_dist = lambda _f=orig_isd: DictDistribution({**{e: pr for e, pr in _f().items()}, zlab: 0.0})
+    if m.get("rarecost"):
+        from msdm.core.distributions import DictDistribution
+        rc = m["rarecost"]
+        key = (b.slabel[rc["s"]], b.alabel[rc["a"]])
+        glab, tlab = b.slabel[rc["g"]], b.slabel[rc["t"]]
+        branch = DictDistribution({glab: 1.0 - 2.0 ** -30, tlab: 2.0 ** -30})
+        orig_nsd, orig_rew = b.mdp.next_state_dist, b.mdp.reward
+        b.mdp.next_state_dist = lambda st, a, _f=orig_nsd: branch if (st, a) == key else _f(st, a)
+        b.mdp.reward = lambda st, a, ns, _f=orig_rew: ((-rc["c"] * 2.0 ** 40 if ns == tlab else float(rc["r1"]))
+                                                       if (st, a) == key else _f(st, a, ns))
     if m.get("rare"):
         from msdm.core.distributions import DictDistribution
         s0, a0, x, t = m["rare"]
@@ -461,6 +531,8 @@ def prepare(case, tamper_build=None):
             for t in range(m["N"]):
                 if m["P"][s][a][t] > 0:
                     if t not in pos:
+                        if m["abs"][s]:
+                            continue                      # unexpanded ghost successor of an absorbing state: row cut
                         raise TLCFailure(f"generator: successor {t} of listed state {s} is not in the state list")
                     P[i][j][pos[t]] = m["P"][s][a][t]
                     R[i][j][pos[t]] = m["R"][s][a][t]
@@ -1065,12 +1137,12 @@ def judge_one(ctx, jby, steps, i, c, b, mp, role, orc, exact, myruns, outs):
     N, K = mp["N"], mp["K"]
     rds = units_of(orc)
     scale = magnitude(mp)
-    # At magnitude >= 1e6 the ABSOLUTE tolerances inside msdm (np.isclose atol 1e-8 in the improvement steps) are
+    # At magnitude >= 1e3 the ABSOLUTE tolerances inside msdm (np.isclose atol 1e-8 in the improvement steps) are
     # below the round-off of its own tables, so which exactly tied action it keeps / whether it ping-pongs on noise
     # is not a function of the exact model: the implementation-shaped comparisons (iterations, visited rules, step
     # replay, UnboundLocalError at an exhausted cap) are counted there, not reported; every clause of the statement
     # is still judged on every converged run.
-    noisy = scale >= 1e6
+    noisy = scale >= 1e3      # (measured: data of magnitude 1e4 with an exact gain of 0 -> gain round-off 6e-8 > atol 1e-8)
     eps = c["m"].get("eps")
     if eps is not None:
         # rare-transition family: the exact answers do not depend on eps (checked by the spec), the trajectory and the
@@ -1085,6 +1157,8 @@ def judge_one(ctx, jby, steps, i, c, b, mp, role, orc, exact, myruns, outs):
     if eps is not None:
         shape = "rare-transition"           # one signature per clause for this family (probability 1e-3 .. 1e-9)
         ctx.count(f"rare-transition eps={eps:g}")
+    if c.get("rarecost"):
+        shape += "+2^-30-branch-with-2^40-penalty"
     if c.get("zinit") is not None:
         shape += "+zero-probability-initial-entry-for-unreachable-state"
     if role == "sweep":
